@@ -88,7 +88,7 @@ func lossless(recs []record, allCuts bool) {
 			}
 		}
 		for _, r := range res[len(recs):] {
-			if !r.eof {
+			if r.ok {
 				report("lossless:framing", stream, cuts, fmt.Sprintf("extra result %+v after the %d records", r, len(recs)))
 				break
 			}
@@ -99,6 +99,9 @@ func lossless(recs []record, allCuts bool) {
 	// the last byte arrives together with io.EOF; a call answers (0, nil)
 	check(&faultio.FragReader{Data: []byte(stream), MaxPerCall: 1, EOFWithData: true}, []int{-2})
 	check(&faultio.FragReader{Data: []byte(stream), ZeroEvery: true}, []int{-3})
+	// the last byte arrives together with an error that is not (exactly) io.EOF
+	check(&faultio.FragReader{Data: []byte(stream), MaxPerCall: 1, EOFWithData: true, FinalErr: fmt.Errorf("connection reset")}, []int{-4})
+	check(&faultio.FragReader{Data: []byte(stream), MaxPerCall: 3, EOFWithData: true, FinalErr: fmt.Errorf("closed: %w", io.EOF)}, []int{-5})
 	// buffered readers of several sizes (a caller may well wrap the helper's pipe)
 	check(bufio.NewReaderSize(strings.NewReader(stream), 16), []int{-16})
 	check(bufio.NewReaderSize(&faultio.FragReader{Data: []byte(stream), MaxPerCall: 7}, 64), []int{-64})
@@ -304,6 +307,29 @@ func judgeStream(stream string, origin string) {
 		report(c.Sig+":"+why, stream, nil, "panicked: "+c.Value)
 		return
 	}
+	// the same stream through a byte-wise source and through one that answers
+	// every other call with (0, nil): the same results, call for call
+	if len(stream) < 2000 {
+		for ki, rd := range []io.Reader{&faultio.FragReader{Data: []byte(stream), MaxPerCall: 1, EOFWithData: true}, &faultio.FragReader{Data: []byte(stream), ZeroEvery: true, MaxPerCall: 2}} {
+			r2, c2 := decodeAll(rd, 16)
+			if c2.Panicked {
+				report(c2.Sig+":fragmented:"+why, stream, []int{-1 - ki}, "panicked: "+c2.Value)
+				return
+			}
+			same := len(r2) == len(res)
+			for i := 0; same && i < len(res); i++ {
+				same = r2[i].ok == res[i].ok && r2[i].eof == res[i].eof && (r2[i].err != "") == (res[i].err != "") && r2[i].rec.ts == res[i].rec.ts && bytes.Equal(r2[i].rec.msg, res[i].rec.msg)
+			}
+			if !same {
+				w := why
+				if w == "" {
+					w = "valid-lines"
+				}
+				report("fragmentation-changes-result:"+w, stream, []int{-1 - ki}, fmt.Sprintf("%s: from memory %v, from a fragmenting source (kind %d) %v", origin, res, ki, r2))
+				return
+			}
+		}
+	}
 	if nMal > 0 {
 		ctx.NontrivialN(1)
 	}
@@ -393,6 +419,14 @@ func edges(part, parts int) {
 				ctx.Add("edge_time_stamps", 1)
 			}
 			n++
+		}
+	}
+	// long malformed lines: the error is found early, a long tail follows
+	if part == 0 {
+		tail := strings.Repeat("90", 150)
+		for _, bad := range []string{"12 9Z" + tail + "\n", "1x2 " + tail + "\n", "12 90 " + tail + " 80\n", "12" + tail + "\n"} {
+			judgeStream(bad+"99 B0077F\n17 C0\n", "long malformed line")
+			judgeStream("5 80\n"+bad+"99 B0077F\n", "long malformed line in the middle")
 		}
 	}
 	for _, ln := range []int{1, 3, 31, 32, 33, 64, 65, 128, 129, 300} {
